@@ -675,9 +675,10 @@ def replace_fixed_thetas(model: Model):
 
     keep = []
     new_assignments = []
+    theta_names = set(get_thetas(model).names)
 
     for p in model.parameters:
-        if p.fix:
+        if p.fix and p.name in theta_names:
             ass = Assignment(p.symbol, Expr.float(p.init))
             new_assignments.append(ass)
         else:
